@@ -177,13 +177,21 @@ def concrete_verdict(kinds):
     return ("accept", cursor, resolved, why), ast, toks
 
 
-def h1(c, n, with_parens):
+SLICES = {
+    "ops": ["IDENTIFIER", "NUMBER", "PLUS", "MINUS", "STAR", "SLASH", "COLON", "STAR_STAR", "PIPE", "TILDE", "EQUAL_EQUAL", "LESS", "LEFT_PAREN", "RIGHT_PAREN"],
+    "calls": ["IDENTIFIER", "LEFT_PAREN", "RIGHT_PAREN", "COMMA", "EQUAL", "NUMBER", "STRING", "PLUS", "LEFT_BRACKET", "RIGHT_BRACKET", "LEFT_BRACE", "RIGHT_BRACE"],
+}
+
+
+def h1(c, n, with_parens, alphabet=None):
     """one path of the parser harness for sentences of n tokens"""
     from formulae.parser import Parser
     from formulae.token import Token
 
     LazyTok = h1.LazyTok
-    toks = [LazyTok(i, symx.SymKind(f"k{i}", KINDS, c)) for i in range(n)]
+    kinds = SLICES[alphabet] if alphabet else KINDS
+    tag = f"{alphabet}_" if alphabet else ""
+    toks = [LazyTok(i, symx.SymKind(f"k{tag}{i}", kinds, c)) for i in range(n)]
     toks.append(Token("EOF", ""))
 
     parser = Parser(list(toks))
@@ -209,6 +217,8 @@ def h1(c, n, with_parens):
         c.prove(True, "accepted sentence: tree == reference tree and cursor at EOF")
         if with_parens:
             paren_check(c, toks, n, ref)
+        if n <= h1.NM or alphabet == "calls":
+            every_token_matters(c, toks, n, kinds)
         return
     # candidate violation: realise the tokens and decide on the concrete sentence
     kinds = realise_tokens(c, toks, n)
@@ -231,6 +241,85 @@ def h1(c, n, with_parens):
             "model": {},
         }
     )
+
+
+VARIANTS = {"IDENTIFIER": ("va", "vb"), "NUMBER": ("2", "3"), "STRING": ("'s'", "'t'"), "BQNAME": ("`q`", "`r`"), "PYTHON_LITERAL": ("True", "False")}
+
+
+def describe_model(text):
+    """everything model_description exposes about a formula, as one comparable value"""
+    from formulae import model_description
+
+    m = model_description(text)
+
+    def comp(cmp):
+        return (type(cmp).__name__, str(cmp.name), getattr(cmp, "reference", None))
+
+    def term(t):
+        if type(t).__name__ == "Intercept":
+            return "1"
+        return tuple(comp(x) for x in t.components)
+
+    resp = None if m.response is None else term(m.response.term)
+    return (resp, tuple(term(t) for t in m.common_terms), tuple((term(g.expr), term(g.factor)) for g in m.group_terms))
+
+
+def every_token_matters(c, toks, n, kinds_alphabet):
+    """metamorphic check on one witness sentence of the path (a z3 model of the path condition,
+    no fork): the sentence is written out with a distinct spelling per value-carrying token and
+    given to the real model_description; re-spelling a single such token inside a call or a
+    subscript must change the description -- otherwise that token was ignored."""
+    m = c.model_of()
+    tag = toks[0].kind.name[1:-1] if n else ""
+    kinds = []
+    for i in range(n):
+        nm = toks[i].kind.name
+        kinds.append(kinds_alphabet[int(m.get(nm, 0))])
+    spell_a = []
+    for i, kd in enumerate(kinds):
+        if kd == "IDENTIFIER":
+            spell_a.append(f"v{i}")
+        elif kd in VARIANTS:
+            spell_a.append(VARIANTS[kd][0])
+        else:
+            spell_a.append(SPELL[kd])
+    base_text = " ".join(spell_a)
+    try:
+        base = describe_model(base_text)
+    except Exception:  # refused by scanner / resolver: nothing is accepted, nothing ignored
+        c.reach("witness refused by model_description")
+        return
+    depth = 0
+    inside = []
+    for kd in kinds:
+        if kd in ("RIGHT_PAREN", "RIGHT_BRACKET", "RIGHT_BRACE"):
+            depth -= 1
+        inside.append(depth > 0)
+        if kd in ("LEFT_PAREN", "LEFT_BRACKET", "LEFT_BRACE"):
+            depth += 1
+    for i, kd in enumerate(kinds):
+        if kd not in VARIANTS:
+            continue
+        # only tokens inside ( ), [ ] or { }: at the top level of a formula the term algebra may
+        # legitimately not depend on a token ('a - b' is 'a' whatever b is)
+        if not inside[i]:
+            continue
+        if not any(k in ("LEFT_BRACKET", "LEFT_BRACE") or (k == "LEFT_PAREN" and j > 0 and kinds[j - 1] == "IDENTIFIER") for j, k in enumerate(kinds[:i])):
+            continue  # plain grouping parentheses: same as top level
+        alt = list(spell_a)
+        alt[i] = f"w{i}" if kd == "IDENTIFIER" else VARIANTS[kd][1]
+        if kd == "NUMBER" and i > 0 and kinds[i - 1] == "STAR_STAR":
+            continue  # x ** 2 and x ** 3 both mean x (documented: power of a single variable is the variable)
+        try:
+            other = describe_model(" ".join(alt))
+        except Exception:  # noqa
+            continue
+        if other == base:
+            c.stats.obligations += 1
+            c.stats.violated += 1
+            c.violations.append({"label": "a token of an accepted formula is ignored", "info": {"kinds": kinds, "text": base_text, "alt": " ".join(alt), "position": i, "n": n, "h3": True}, "model": {}})
+            return
+    c.prove(True, "every value-carrying token of the witness sentence influences the model")
 
 
 def wrap_spans(tree, out):
@@ -595,6 +684,12 @@ def replay_h1(info):
     # canonical tree of the concrete AST: positions recovered by identity of Token objects;
     # literal values are compared through their token's position by re-walking in order
     real = canon_concrete(ast, toks)
+    if info.get("h3"):
+        try:
+            same = describe_model(info["text"]) == describe_model(info["alt"])
+        except Exception as e:  # noqa
+            return False, f"plain run refuses: {type(e).__name__}"
+        return same, f"model_description({info['text']!r}) == model_description({info['alt']!r}): token {info['position']} is ignored"
     if "wrapped" in info:
         a, b = info["wrapped"]
         from formulae.parser import Parser
@@ -722,7 +817,7 @@ def _work(job):
     try:
         if kind == "h1":
             h1.LazyTok = make_lazy_token_class()
-            c = symx.explore(h1, job["n"], job["parens"], prefix=job.get("prefix"), max_paths=BUDGET, timeout_ms=20000)
+            c = symx.explore(h1, job["n"], job["parens"], job.get("alphabet"), prefix=job.get("prefix"), max_paths=BUDGET, timeout_ms=20000)
         else:
             c = symx.explore(h2, job["l"], job["alphabet"], prefix=job.get("prefix"), max_paths=BUDGET, timeout_ms=20000)
         out["stats"] = c.stats.as_dict()
@@ -732,6 +827,8 @@ def _work(job):
             sig = {"harness": kind, "what": v["label"]}
             if kind == "h1":
                 sig["sentence"] = " ".join(v["info"]["kinds"])
+                if v["info"].get("h3"):
+                    sig["position"] = v["info"]["position"]
                 if "wrapped" in v["info"]:
                     sig["wrapped"] = v["info"]["wrapped"]
             else:
@@ -746,6 +843,7 @@ def _work(job):
 
 
 BUDGET = 1500
+h1.NM = 5
 
 
 def run(tier, seed):
@@ -756,15 +854,19 @@ def run(tier, seed):
         "formulae.expr.*", "formulae.token.Token", "formulae.resolver.Resolver (only to decide rejection of candidate counterexamples)",
     ]
     if tier == "quick":
-        N, NP, L_full, L_multi = 5, 4, 3, 4
+        N, NP, L_full, L_multi, NS_ops, NS_calls = 5, 4, 3, 4, 6, 7
     else:
-        N, NP, L_full, L_multi = 6, 5, 4, 5
+        N, NP, L_full, L_multi, NS_ops, NS_calls = 6, 5, 4, 5, 7, 9
+    NS_ops = int(os.environ.get("C01_NS_OPS", NS_ops))
+    NS_calls = int(os.environ.get("C01_NS_CALLS", NS_calls))
     N = int(os.environ.get("C01_N", N))
+    h1.NM = min(N, 6)
     L_full = int(os.environ.get("C01_L", L_full))
     L_multi = int(os.environ.get("C01_LM", L_multi))
     rep.bounds = {
         "H1 parser: sentence length (tokens, excluding EOF)": f"0..{N} over all {len(KINDS)} token kinds (kinds are solver variables)",
         "H1 redundant-parentheses re-parse": f"sentences up to {NP} tokens",
+        "H1 slices (restricted alphabets, longer sentences)": f"operator slice {SLICES['ops']} up to {NS_ops} tokens; call slice {SLICES['calls']} up to {NS_calls} tokens",
         "H2 scanner: string length, full alphabet": f"1..{L_full} over {len(ALPHABET_FULL)} characters {''.join(ALPHABET_FULL)!r}",
         "H2 scanner: string length, multi-character-token alphabet": f"1..{L_multi} over {''.join(ALPHABET_MULTI)!r}",
     }
@@ -783,6 +885,9 @@ def run(tier, seed):
     jobs = []
     for n in range(N, -1, -1):
         jobs.append({"kind": "h1", "n": n, "parens": n <= NP})
+    for alph, lo, hi in (("ops", N + 1, NS_ops), ("calls", N + 1, NS_calls)):
+        for n in range(hi, lo - 1, -1):
+            jobs.append({"kind": "h1", "n": n, "parens": False, "alphabet": alph})
     for l in range(L_multi, L_full, -1):
         jobs.append({"kind": "h2", "l": l, "alphabet": ALPHABET_MULTI})
     for l in range(L_full, 0, -1):
@@ -793,7 +898,7 @@ def run(tier, seed):
         if r["error"]:
             rep.inconclusive.append(r["error"])
         rep.add_stats(r.get("stats", {}))
-        key = (r["job"]["kind"], r["job"].get("n", r["job"].get("l")))
+        key = (r["job"]["kind"] + (":" + r["job"]["alphabet"] if r["job"].get("alphabet") and r["job"]["kind"] == "h1" and isinstance(r["job"].get("alphabet"), str) else ""), r["job"].get("n", r["job"].get("l")))
         per[key] = per.get(key, 0) + r.get("stats", {}).get("paths", 0)
         for v in r["violations"]:
             rep.violations.append(v)
